@@ -194,6 +194,10 @@ func setFloatFromBigInt(value *big.Int, dst reflect.Value) {
 		PanicErrorConverting(value, dst.Type(), err)
 	}
 	dst.SetFloat(v)
+	if dst.Float() != v {
+		// Exact as a float64, but the destination is narrower
+		PanicCannotConvert(value, dst.Type())
+	}
 }
 
 func setFloatFromBigFloat(value *big.Float, dst reflect.Value) {
